@@ -4,6 +4,7 @@ import (
 	"fmt"
 	"go/types"
 	"strings"
+	"unicode/utf8"
 
 	"golang.org/x/tools/go/ssa"
 	"verif/engine/sym"
@@ -297,8 +298,12 @@ func (e *Exec) sprintf(format string, args []Value, argTypes []types.Type, lossy
 		arg := args[ai]
 		ai++
 		piece := e.formatArg(verb, arg, width, zero, sharp, lossy)
-		if width > len(piece) && !(verb == 'x' || verb == 'X') {
-			pad := make([]*sym.Term, width-len(piece))
+		shown := len(piece) // fmt pads to a width counted in runes, not bytes
+		if width > 0 && (verb == 's' || verb == 'v' || verb == 'q') {
+			shown = e.runeCount(piece)
+		}
+		if width > shown && !(verb == 'x' || verb == 'X') {
+			pad := make([]*sym.Term, width-shown)
 			padc := byte(' ')
 			if zero && !minus {
 				padc = '0'
@@ -991,4 +996,66 @@ func (e *Exec) opaqueMethod(recv Iface, m *types.Func, args []Value) func() Valu
 		return func() Value { return e.opaqueCall(o, m.Name(), args) }
 	}
 	return nil
+}
+
+// runeCount mirrors utf8.RuneCount for padding decisions. Constant text is counted natively; symbolic text forks on
+// "all bytes are ASCII" (count = length) and otherwise on the class of every sequence start (1, 2, 3 or 4 bytes, with the
+// accept ranges of unicode/utf8; an invalid byte counts as one rune, as in the runtime).
+func (e *Exec) runeCount(piece []*sym.Term) int {
+	allConst := true
+	for _, b := range piece {
+		if !b.IsConst() {
+			allConst = false
+			break
+		}
+	}
+	if allConst {
+		raw := make([]byte, len(piece))
+		for i, b := range piece {
+			raw[i] = byte(b.Uint64())
+		}
+		return utf8.RuneCount(raw)
+	}
+	tb := e.tb
+	var ascii []*sym.Term
+	for _, b := range piece {
+		ascii = append(ascii, tb.ULt(b, tb.Const(8, 0x80)))
+	}
+	if e.branch(tb.BAnd(ascii...)) {
+		return len(piece)
+	}
+	// exact utf8.RuneCount by forking on the class of each sequence start (accept ranges of unicode/utf8)
+	in := func(b *sym.Term, lo, hi uint64) *sym.Term {
+		return tb.BAnd(tb.ULe(tb.Const(8, lo), b), tb.ULe(b, tb.Const(8, hi)))
+	}
+	cont := func(b *sym.Term) *sym.Term { return in(b, 0x80, 0xBF) }
+	n := 0
+	for i := 0; i < len(piece); {
+		b0 := piece[i]
+		step := 1
+		if i+3 < len(piece) {
+			b1ok := tb.BOr(tb.BAnd(tb.Eq(b0, tb.Const(8, 0xF0)), in(piece[i+1], 0x90, 0xBF)),
+				tb.BAnd(in(b0, 0xF1, 0xF3), cont(piece[i+1])),
+				tb.BAnd(tb.Eq(b0, tb.Const(8, 0xF4)), in(piece[i+1], 0x80, 0x8F)))
+			if e.branch(tb.BAnd(b1ok, cont(piece[i+2]), cont(piece[i+3]))) {
+				step = 4
+			}
+		}
+		if step == 1 && i+2 < len(piece) {
+			b1ok := tb.BOr(tb.BAnd(tb.Eq(b0, tb.Const(8, 0xE0)), in(piece[i+1], 0xA0, 0xBF)),
+				tb.BAnd(tb.BOr(in(b0, 0xE1, 0xEC), in(b0, 0xEE, 0xEF)), cont(piece[i+1])),
+				tb.BAnd(tb.Eq(b0, tb.Const(8, 0xED)), in(piece[i+1], 0x80, 0x9F)))
+			if e.branch(tb.BAnd(b1ok, cont(piece[i+2]))) {
+				step = 3
+			}
+		}
+		if step == 1 && i+1 < len(piece) {
+			if e.branch(tb.BAnd(in(b0, 0xC2, 0xDF), cont(piece[i+1]))) {
+				step = 2
+			}
+		}
+		i += step
+		n++
+	}
+	return n
 }
